@@ -177,7 +177,51 @@ def run(ctx):
                 return
 
     core.parallel(ctx, work, sts)
+    random_trees(ctx, rng0, 400 if thorough else 60)
     fixtures_roundtrip(ctx)
+
+
+def random_trees(ctx, rng, n):
+    """B: random larger trees (up to 14 nodes over 3 key tables, stale copies, free entries); the structure decoded by the real
+    reader is recorded and validated by TLC (HyperV!TraceSpec: Got = Decode(file), no ghost entry visible)."""
+    from harness import tracecheck
+    runs = []
+    for tid in range(1, n + 1):
+        K = rng.randrange(4, 15)
+        parent = [0] + [rng.choice([0] + list(range(1, k))) for k in range(2, K + 1)]
+        inner = sorted({p for p in parent if p})
+        inner += [k for k in range(1, K + 1) if k not in inner and rng.random() < 0.15]
+        x = {"parent": parent, "inner": sorted(set(inner)), "tbl": [rng.randrange(1, 4) for _ in range(K)], "stale": sorted(rng.sample([1, 2, 3], rng.randrange(0, 3))),
+             "free": sorted(rng.sample([1, 2, 3], rng.randrange(0, 3))), "hdr": rng.choice([1, 2]), "newerFirst": rng.random() < 0.5}
+        nodes = make_nodes({**x, "parent": {i + 1: p for i, p in enumerate(parent)}, "tbl": {i + 1: t for i, t in enumerate(x["tbl"])}}, rng)
+        for nd in nodes:
+            nd["key"] = f"n{nd['id']}-" + nd["key"]
+        try:
+            hf = decode_real(build_file(x, nodes, rng))
+            decoded, ghost = [], False
+
+            def walk(entries, pid):
+                nonlocal ghost
+                for key, e in entries.items():
+                    if key.startswith("ghost"):
+                        ghost = True
+                        continue
+                    nid = int(key[1:key.index("-")])
+                    decoded.append([nid, pid, 1 if e.type.name == "Node" else 0])
+                    walk(e.children, nid)
+            walk(hf.root, 0)
+        except Exception as e:  # noqa: BLE001
+            ctx.violation({"fail": "open-raised", "sub": "random-trees", "exc": type(e).__name__}, {"file": x, "error": repr(e)[:300]})
+            continue
+        ctx.case(key=("tree", repr(x)), nontrivial=True)
+        runs.append({"tid": tid, **x, "decoded": decoded, "ghost_seen": ghost})
+    if runs:
+        verdicts, res = tracecheck.validate("HyperV", "TraceHyperV.cfg", runs)
+        ctx.add_tlc("TraceHyperV.cfg (random trees)", res)
+        for r in runs:
+            ctx.traces_validated += 1
+            if verdicts[r["tid"]][0] == "reject":
+                ctx.violation({"fail": "decoded-structure", "sub": "random-trees"}, {"file": {k: r[k] for k in ("parent", "inner", "tbl", "stale", "free", "hdr", "newerFirst")}, "decoded": r["decoded"][:20]})
 
 
 def fixtures_roundtrip(ctx):
